@@ -373,13 +373,25 @@ def _clone(snap: str, dest: str) -> None:
             sk.close()
 
 
-def reference(case: dict, snap: str, project: e3.Project, removals: list | None = None) -> e3.BuildResult:
+def reference(case: dict, snap: str, project: e3.Project, removals: list | None = None,
+              stmts: list | None = None) -> e3.BuildResult:
     """The uninterrupted build; ``removals`` collects one entry per file-system removal of its
-    cleanup pass (``finalize._try_remove``): the removal crash points."""
+    cleanup pass (``finalize._try_remove``): the removal crash points; ``stmts`` one entry per
+    autocommitted statement (DBSession.apply_schema, reclaim_free_space): the schema-stmt points."""
     with tempfile.TemporaryDirectory(prefix="c05-") as tmp:
         _clone(snap, tmp)
-        with cw.count_removals(removals if removals is not None else []):
+        with cw.count_removals(removals if removals is not None else []), \
+                cw.count_schema_stmts(stmts if stmts is not None else []):
             return e3.build(tmp, project.program, env=dict(project.env), **_last_kw(case))
+
+
+def schema_points(nstmts: int, dense: bool) -> list:
+    """A kill before the k-th autocommitted statement: all of them (``dense``), or the first six (the
+    two stamps and the first CREATEs), every eighth, and the last three."""
+    ks = range(1, nstmts + 1)
+    if not dense:
+        ks = sorted({k for k in ks if k <= 6 or k % 8 == 0 or k > nstmts - 3})
+    return [{"kind": "schema-stmt", "k": k} for k in ks]
 
 
 CLEANUP_SITES = ("revert_optional_steps", "_revert_optional_steps", "Builder.finalize", "cleanup",
@@ -716,6 +728,8 @@ def _window(info: dict) -> str:
         return "stage-of-running-step"
     if info["kind"] == "removal":
         return "during-remove_deletable_files"
+    if info["kind"] == "schema-stmt":
+        return "inside-apply_schema"
     if info.get("watch"):
         return f"watch-phase:{info['when']}-commit-of-{info['site']}"
     return f"{info['when']}-commit-of-{info['site']}"
@@ -840,6 +854,8 @@ def check_point(case: dict, snap: str, project: e3.Project, ref: e3.BuildResult,
         kw = _last_kw(case)
         if point["kind"] == "removal":
             out = cw.build_forked_removal(tmp, project.program, point["k"], env=dict(project.env), **kw)
+        elif point["kind"] == "schema-stmt":
+            out = cw.build_forked_schema(tmp, project.program, point["k"], env=dict(project.env), **kw)
         else:
             out = e3.build_forked(tmp, project.program, crash=point, env=dict(project.env), **kw)
         if not out.crashed:
@@ -899,9 +915,12 @@ def run_job(job: dict) -> dict:
     with tempfile.TemporaryDirectory(prefix="c05s-") as snap:
         project = snapshot(case, snap)
         removals: list = []
-        ref = reference(case, snap, project, removals)
+        stmts: list = []
+        ref = reference(case, snap, project, removals, stmts)
         pts = points_of(ref) + [{"kind": "removal", "k": k} for k in range(1, len(removals) + 1)]
-        if job.get("points") == "cleanup":
+        if job.get("points") == "schema":
+            pts = schema_points(len(stmts), bool(job.get("dense")))
+        elif job.get("points") == "cleanup":
             pts = cleanup_points(ref, len(removals))
         elif job.get("points") == "detached":
             pts = detached_window_points(ref)
@@ -919,6 +938,7 @@ def run_job(job: dict) -> dict:
     return {"case": case, "ref": {"rc": ref.returncode, "error": ref.error, "commits": len(ref.commit_points),
                                   "stages": len(ref.stage_points), "executed": ref.executed(),
                                   "startup_commits": startup_commits(ref), "removals": len(removals),
+                                  "schema_stmts": len(stmts),
                                   "sites": sorted({s for s, _ in ref.commit_points})},
             "results": results}
 
